@@ -12,7 +12,7 @@ from mc.gen import render
 
 ID = "C14"
 LEVEL = "fault_enumeration"
-LEVEL_TEXT = ("Complete enumeration of valid generated program x every statement position (top level and inside blocks, named scopes, loop bodies, taken .if branches and bodies of applied macros; every top-level variant also with the whole program in an .include'd file) x 52 classes of definite error "
+LEVEL_TEXT = ("Complete enumeration of valid generated program x every statement position (top level and inside blocks, named scopes, loop bodies, taken .if branches and bodies of applied macros; every top-level variant also with the whole program in an .include'd file) x 56 classes of definite error "
               "(bad character, bad size suffix, bad index register, unterminated string, unterminated comment, missing closing brace, "
               "stray token, undefined symbol in an operand / in data, undefined macro, too few macro arguments, addressing mode or "
               "width the mnemonic lacks, branch out of range, *= to an unmapped bank, missing .include/.incbin/.table/.include_ips "
@@ -82,6 +82,11 @@ FAULTS = {
     "undefined-symbol-in-unused-macro-argument": "c14ignore(nosuchsymbol)",
     "org-beyond-24-bits": "*=0x1008000\n.db 1",
     "relocation-beyond-24-bits": "@=0x1008000\n.db 1",
+    # operators the scanner knows but the evaluator does not: the condition cannot be evaluated (it is not "an undefined name")
+    "if-with-unsupported-operator-eq": ".if 1 == 1 {\n.db 1\n}",
+    "if-with-unsupported-operator-ne": ".if 2 != 1 {\n.db 1\n} .else {\n.db 2\n}",
+    "if-with-unsupported-operator-gt": ".if 2 > 1 {\n.db 1\n}",
+    "data-with-unsupported-operator": ".db 2 > 1",
 }
 PRELUDE = [("macro", "c14two", ["p", "q"], [("data", "db", [("s", "p"), ("s", "q")])]),
            ("macro", "c14ignore", ["p"], [("data", "db", [("n", 1, "1")])])]
@@ -116,7 +121,7 @@ def setup(tier, seed):
 
 
 def bound(tier):
-    return "7 base programs x every top-level and nested position x 52 error classes x 5 in-process entry points; 52 x 2 real CLI processes; controls"
+    return "7 base programs x every top-level and nested position x 56 error classes x 5 in-process entry points; 56 x 2 real CLI processes; controls"
 
 
 def base_programs():
